@@ -432,6 +432,86 @@ func afterFailedSends(inner func()) func() {
 		inner()
 	}
 }
+// manyHandlers: more handlers than the table's ten preallocated slots; some
+// are removed again (a free choice of which); every handler still registered
+// receives exactly the frames its filter selects.
+func manyHandlers() {
+	ca, cb := vnet.NewPair("a", "b")
+	a := net.NewEndPoint(ca)
+	b := net.NewEndPoint(cb)
+	frameType = net.Post
+	const n = 12
+	qs := make([]chan *net.Message, n)
+	ids := make([]int, n)
+	for i := 0; i < n; i++ {
+		i := i
+		qs[i] = make(chan *net.Message, 8)
+		sel := func(h *net.Header) (bool, bool) { return true, true }
+		if i%3 == 2 {
+			sel = func(h *net.Header) (bool, bool) { return h.ID%2 == 1, true } // odd ids only
+		}
+		ids[i] = b.MakeHandler(sel, qs[i], nil)
+	}
+	patterns := [][]int{{}, {0, 1, 2, 3, 4, 5, 6, 7, 8, 9}, {11}, {10}, {0, 11}, {1, 2, 3, 4, 5, 6, 7, 8, 9, 10, 11}, {0, 2, 4, 6, 8, 10}, {5}}
+	pat := patterns[vrt.ChooseFree(len(patterns), "removed-handlers")]
+	removed := map[int]bool{}
+	for _, i := range pat {
+		if err := b.RemoveHandler(ids[i]); err != nil {
+			vrt.Failf("registration/remove-failed", "RemoveHandler(%d) of a live handler failed: %v", ids[i], err)
+		}
+		removed[i] = true
+	}
+	late := vrt.ChooseFree(2, "one-more-handler-afterwards") == 1
+	var lq chan *net.Message
+	if late {
+		lq = make(chan *net.Message, 8)
+		b.MakeHandler(func(h *net.Header) (bool, bool) { return true, true }, lq, nil)
+	}
+	vrt.Explore()
+	w := vrt.GoWorker("sender", func() {
+		for k := 0; k < 3; k++ {
+			id := uint32(100 + k)
+			a.Send(net.NewMessage(net.NewHeader(net.Post, 1, 9, uint32(50+k), id), payload(id, sizes[(1+k)%len(sizes)])))
+		}
+	})
+	vrt.Quiesce()
+	if !w.Done() {
+		vrt.Failf("hang/sender", "sender blocked on %s", w.BlockedOn())
+	}
+	drain := func(q chan *net.Message) []uint32 {
+		var got []uint32
+		for len(q) > 0 {
+			m := <-q
+			if !intact(m) {
+				vrt.Failf("corrupt/all", "damaged frame: header %+v, %d payload bytes", m.Header, len(m.Payload))
+			}
+			got = append(got, m.Header.ID)
+		}
+		return got
+	}
+	for i := 0; i < n; i++ {
+		got := fmt.Sprint(drain(qs[i]))
+		want := "[100 101 102]"
+		if i%3 == 2 {
+			want = "[101]"
+		}
+		if removed[i] {
+			want = "[]"
+		}
+		if got != want {
+			vrt.Failf("missing/handler-beyond-ten", "with %d handlers registered and %v removed, handler %d (slot %d) received %s, its filter selects %s of the frames [100 101 102]", n, pat, i, ids[i], got, want)
+		}
+	}
+	if late {
+		if got := fmt.Sprint(drain(lq)); got != "[100 101 102]" {
+			vrt.Failf("missing/handler-beyond-ten", "a handler registered after the removals %v received %s of [100 101 102]", pat, got)
+		}
+	}
+	vrt.Observe("pattern=%v late=%v", pat, late)
+	a.Close()
+	b.Close()
+	vrt.Quiesce()
+}
 
 func init() {
 	reg.Register(&reg.Scenario{Property: "C10", Name: "two-senders-one-frame-exhaustive", Body: light, Quick: 2, Thorough: 99,
@@ -442,6 +522,8 @@ func init() {
 		Doc: "two frames are waiting and a third is being sent while EndPointFinalizer builds the endpoint; the handlers installed by a slow finalizer get every frame"})
 	reg.Register(&reg.Scenario{Property: "C10", Name: "limit-size-frame", Body: limit, Quick: 0, Thorough: 1,
 		Doc: "a sender sends payloads of MaxPayloadSize-1 and exactly MaxPayloadSize bytes, another sender small frames: all arrive intact, in each sender's order"})
+	reg.Register(&reg.Scenario{Property: "C10", Name: "twelve-handlers", Body: manyHandlers, Quick: 0, Thorough: 1,
+		Doc: "12 handlers on one endpoint (two beyond the preallocated table), 8 patterns of removals, optionally one more registration; three frames: every remaining handler receives exactly its subsequence"})
 	reg.Register(&reg.Scenario{Property: "C10", Name: "calls-blocked-first-handler", Body: body(2, 2, false, net.Call, true), Quick: 2, Thorough: 4,
 		Doc: "2 senders x 2 Call frames; the first registered handler selects everything but never drains its 1-slot queue", MustFlag: []string{"sender-overtaken"}})
 	reg.Register(&reg.Scenario{Property: "C10", Name: "two-senders", Body: body(2, 2, false, net.Post, false), Quick: 2, Thorough: 5,
